@@ -383,6 +383,7 @@ Property prop_C08(const std::string& variant) {
         o.vp_anywhere = true;
         o.canonical_presentation = false;
         o.max_methods = 5;
+        o.many_methods = true;
         o.max_defs = 8;
         c.spec = gen_spec(ch, o, size);
         return c;
